@@ -296,6 +296,21 @@ def _len_lower_bound(fl, node, name, base_lb, len_alias=None):
     return lb
 
 
+def _is_filtered_list(rhs):
+    """list(filter(p, xs)) / [x for x in xs if p]: the members of another list that pass a test."""
+    if rhs is None:
+        return False
+    if isinstance(rhs, ast.Call) and isinstance(rhs.func, ast.Name) and rhs.func.id in ("list", "tuple") and len(rhs.args) == 1:
+        a = rhs.args[0]
+        if isinstance(a, ast.Call) and isinstance(a.func, ast.Name) and a.func.id == "filter":
+            return True
+        if isinstance(a, ast.GeneratorExp) and any(g.ifs for g in a.generators):
+            return True
+    if isinstance(rhs, ast.ListComp) and any(g.ifs for g in rhs.generators):
+        return True
+    return False
+
+
 def unguarded_constant_subscripts(prog, finfo, origin_ok=None):
     """[(Subscript node, need, have, why)] for `X[k]` (k an int constant, X a plain local name or parameter
     whose every reaching definition is a parameter, a .split()/.readlines()/re.split result, or a slice of
@@ -341,6 +356,8 @@ def unguarded_constant_subscripts(prog, finfo, origin_ok=None):
                         b = 0
                     elif rhs is not None and isinstance(rhs, ast.Call) and any(isinstance(a, ast.Name) and a.id == name for a in rhs.args):
                         b = 0       # x = f(x): a transformed copy of unknown length
+                    elif _is_filtered_list(rhs):
+                        b = 0       # the members of one list that pass a test: possibly none
                     else:
                         b = None
                     if alias is not None:
@@ -375,6 +392,8 @@ def _origin_base(fl, n, name, params):
         elif rhs is not None and isinstance(rhs, ast.Subscript) and isinstance(rhs.slice, ast.Slice):
             b = 0
         elif rhs is not None and isinstance(rhs, ast.Call) and any(isinstance(a, ast.Name) and a.id == name for a in rhs.args):
+            b = 0
+        elif _is_filtered_list(rhs):
             b = 0
         else:
             return None
